@@ -181,6 +181,29 @@ def main(pid):
     # volume / page, incl. pages written with separators): distinct documents must not share a resource
     ex = vlib.impl_run("drv_extract", "db_examples", {})["reporters"]
     docs += [f"{a}; {b}; {c}. Id. at 3." for a, b, c in zip(ex, ex[1:], ex[2:])][:: (1 if thorough else 2)]
+    # the SAME written citation with years that decide between the candidate editions of an ambiguous reporter string
+    # (or between an edition name and the editions it also abbreviates), and without a year: equal text, different documents
+    import datetime
+    today = datetime.date.today().year
+    db = vlib.impl_run("drv_extract", "db_strings", {})
+    amb_docs = []
+    for st in db["strings"]:
+        eds = list(st["editions"]) + list(st.get("others", []))
+        if len(eds) < 2:
+            continue
+        rng = {e: ((db["years"][e][0] or 1600), (db["years"][e][1] or today)) for e in eds}
+        ys = []
+        for e in eds:
+            for y in (rng[e][0], rng[e][1], (rng[e][0] + rng[e][1]) // 2):
+                if 1600 <= y <= today and all(not (rng[o][0] <= y <= rng[o][1]) for o in eds if o != e):
+                    ys.append(y)
+                    break
+        if len(ys) >= 2:
+            S = st["string"]
+            amb_docs.append(f"Kappa v. Lomax, 1 {S} 2 ({ys[0]}). Mirren v. Noxon, 1 {S} 2 ({ys[1]}). Zeta v. Yarrow, 1 {S} 2. Id. at 3.")
+            amb_docs.append(f"1 {S} 2 ({ys[1]}); 1 {S} 2 ({ys[0]}); 1 {S} 2 ({ys[1]}).")
+    ev.cov["same_text_different_year_documents"] = len(amb_docs)
+    docs += amb_docs
     docs = [d for d in dict.fromkeys(docs) if d.strip()]
     dobs = vlib.impl_map("drv_resolve", "run_docs", docs)
     dtr = [{"p": [0] * len(o["cites"]), "cs": o["cites"], "g": o["groups"] or [], "r": o["raised"] or "",
